@@ -17,6 +17,7 @@ import types
 
 import z3
 
+from .core import _any_eq as _core_any_eq
 from .core import (CTX, SymInt, SymBool, SymBytes, SymStr, SymArrayB, SymKey, Unsupported, mkbytes, mkstr,
                    mkint, mkbool, select_table, is_sym, SYM_TYPES, ite)
 
@@ -195,6 +196,10 @@ def sx_in(item, cont):
         if isinstance(cont, range):
             return bool((item >= cont.start) & (item < cont.stop)) and (cont.step == 1 or bool((item - cont.start) % cont.step == 0))
         raise Unsupported("SymInt in %s" % type(cont).__name__)
+    if isinstance(item, SymStr) and isinstance(cont, str):
+        if len(item) == 1:
+            return bool(_core_any_eq(item.items[0], [ord(ch) for ch in cont]))
+        return SymStr([ord(ch) for ch in cont]).find(item) >= 0
     if isinstance(item, (SymStr, SymBytes)):
         if isinstance(cont, (dict, set, frozenset, list, tuple)):
             for k in list(cont):
@@ -687,6 +692,8 @@ def sx_call(f, *args, **kw):
             return m_join(slf, *args)
         if isinstance(slf, str) and name == "join":
             return m_join(slf, *args)
+        if isinstance(slf, str) and name in ("find", "startswith", "endswith", "__contains__", "split", "count") and isinstance(args[0], SymStr):
+            return getattr(SymStr([ord(ch) for ch in slf]), name)(*args)
         if isinstance(slf, str) and name == "format":
             return f(*args, **kw)           # goes through __format__ of the proxies
         if isinstance(slf, (set,)) and name in ("add", "discard", "remove"):
